@@ -71,6 +71,7 @@ MC_DEPS = {
     "Small": ["Hashbrown.tla", "Griddle.tla", "GriddleCount.tla", "MCGriddle.tla"],
     "CountR8": ["Hashbrown.tla", "GriddleCount.tla", "MCCount.tla"],
     "CountR4": ["Hashbrown.tla", "GriddleCount.tla", "MCCount.tla"],
+    "CountR8big": ["Hashbrown.tla", "GriddleCount.tla", "MCCount.tla"],
     "Fault": ["Hashbrown.tla", "Griddle.tla", "GriddleCount.tla", "MCGriddle.tla"],
     "Iter": ["Hashbrown.tla", "Griddle.tla", "GriddleCount.tla", "MCGriddle.tla", "MCIter.tla"],
     "Par": ["MCPar.tla"],
@@ -123,9 +124,15 @@ MC = {
     # the other instance of (R, Group::WIDTH): what cfg(test) and Miri builds of the crate run with
     "CountR4": {
         "quick": ("MCCount", "MCCountR4_32", 6, 3600),
-        "thorough": ("MCCount", "MCCountR4", 12, 7200),
+        "thorough": ("MCCount", "MCCountR4_64", 12, 7200),
     },
     "CountR8": {
+        "quick": ("MCCount", "MCCountR8_64", 8, 3600),
+        "thorough": ("MCCount", "MCCountR8_64x", 12, 7200),
+    },
+    # one more doubling (128 buckets): does not finish within an hour on a busy machine; a run ended by its
+    # time limit is reported as a partial exploration (evidence: exhaustive = false), never as an error
+    "CountR8big": {
         "quick": ("MCCount", "MCCountR8_64", 8, 3600),
         "thorough": ("MCCount", "MCCountR8", 12, 3600),
     },
@@ -137,7 +144,7 @@ PROPS = {
     "C01": dict(suites=["entry_heap", "entry_plain", "sim_plain", "sim_heap", "tomb_plain", "tomb_heap", "core_heap", "core_plain", "core_zst", "rel_heap", "rel_plain", "defects"], mc=["Small", "CountR8"]),
     "C02": dict(suites=["sim_plain", "sim_heap", "big_plain", "big_heap", "big_collide", "tomb_plain", "tomb_heap", "core_plain", "rel_plain", "core_heap", "defects", "repo_tests"], mc=["CountR8", "CountR4"]),
     "C03": dict(suites=["sim_plain", "sim_heap", "big_plain", "big_heap", "big_collide", "tomb_plain", "tomb_heap", "core_plain", "core_heap", "rel_plain", "set_heap", "defects", "repo_tests"], mc=["Small", "CountR8"]),
-    "C04": dict(suites=["sim_plain", "sim_heap", "big_plain", "big_heap", "big_collide", "tomb_plain", "tomb_heap", "core_plain", "rel_plain", "limits_dbg", "limits_rel", "two_heap", "defects", "repo_tests"], mc=["Small", "CountR8", "CountR4"], apalache=True),
+    "C04": dict(suites=["sim_plain", "sim_heap", "big_plain", "big_heap", "big_collide", "tomb_plain", "tomb_heap", "core_plain", "rel_plain", "limits_dbg", "limits_rel", "two_heap", "defects", "repo_tests"], mc=["Small", "CountR8", "CountR4", "CountR8big"], apalache=True),
     "C05": dict(suites=["sim_plain", "sim_heap", "fault_heap", "fault_heap_rel", "tomb_plain", "tomb_heap", "core_heap", "rel_heap", "core_zst", "set_heap", "set_zst", "two_heap", "two_plain_rel", "defects"], mc=["Cursor", "CursorZst", "Iter", "Small", "CountR8"], asan=["two_heap", "two_plain_rel", "core_heap", "fault_heap", "set_heap", "tomb_heap", "defects"], miri=True),
     "C06": dict(suites=["entry_heap", "entry_plain", "core_heap", "rel_heap", "two_heap", "set_heap", "set_two", "defects"], mc=["Small"]),
     # after an injected panic the semantic/safety monitors are part of "the map stays memory-safe and
@@ -145,7 +152,8 @@ PROPS = {
     # (unless the fault-free control segments fail too: then the panic is not to blame)
     "C07": dict(suites=["fault_heap", "fault_heap_rel", "fault_plain", "fault_two", "fault_set", "fault_zst", "defects"], mc=["Fault"],
                 after_fault=True),
-    "C08": dict(suites=["core_heap", "rel_heap", "core_plain", "set_heap", "core_zst"], mc=["Small"]),
+    # (entry suites: iteration right after entry / raw-entry calls on old-table elements next to the move cursor)
+    "C08": dict(suites=["core_heap", "rel_heap", "core_plain", "set_heap", "core_zst", "entry_heap", "entry_plain"], mc=["Small"]),
     "C09": dict(suites=["core_heap", "rel_heap", "core_plain", "set_heap", "set_zst"], mc=["Iter", "Small"]),
     "C10": dict(suites=["sim_plain", "sim_heap", "limits_dbg", "limits_rel", "core_plain", "rel_plain", "set_heap", "defects", "repo_tests"], mc=["CountR8", "Overflow", "OverflowDbg"]),
     # a failed semantic monitor on a map that is the product of clone / clone_from in that run (a lookup
